@@ -47,11 +47,21 @@ const (
 	stLocked
 	stLeased
 	stLeaseExpired
+	// The wallet learned the unconfirmed spender BEFORE the credit it spends:
+	stSpenderFirstUnconf // ... the receipt is unconfirmed and was delivered after its spender
+	stSpenderFirstConf   // ... the receipt is confirmed by a block delivered after its spender
 	numStatus
 )
 
+// smallCoinAmount is the value of a "small" coin (CoinSpec.Small): a valid
+// output whose spending costs more than it yields at the higher fee rates of
+// the built-in strategy family (10000 sat/kvB: every address type; 5000
+// sat/kvB: P2PKH and NP2WKH only).
+const smallCoinAmount = 400
+
 var statusNames = []string{"unconfirmed", "conf1", "deep3", "coinbase-immature", "coinbase-mature",
-	"spent-by-unconfirmed", "spent-by-confirmed", "rolled-back", "locked", "leased", "lease-expired"}
+	"spent-by-unconfirmed", "spent-by-confirmed", "rolled-back", "locked", "leased", "lease-expired",
+	"spender-seen-before-unconfirmed-receipt", "spender-seen-before-confirmed-receipt"}
 
 // CoinSpec is one coin of a wallet state: what was received where and what
 // happened to it afterwards.
@@ -59,10 +69,24 @@ type CoinSpec struct {
 	Type    int    `json:"type"`    // index into typeNames
 	Account uint32 `json:"account"` // 0 or 1
 	Status  int    `json:"status"`  // index into statusNames
+	Small   bool   `json:"small,omitempty"` // receives smallCoinAmount instead of the ordinary amount
 }
 
 func (c CoinSpec) String() string {
-	return fmt.Sprintf("%s/acct%d/%s", typeNames[c.Type], c.Account, statusNames[c.Status])
+	s := fmt.Sprintf("%s/acct%d/%s", typeNames[c.Type], c.Account, statusNames[c.Status])
+	if c.Small {
+		s += fmt.Sprintf("/small%d", smallCoinAmount)
+	}
+	return s
+}
+
+func hasSmall(sp []CoinSpec) bool {
+	for _, c := range sp {
+		if c.Small {
+			return true
+		}
+	}
+	return false
 }
 
 func specsString(sp []CoinSpec) string {
@@ -195,7 +219,11 @@ func coinbaseTx(tag string, pk []byte, amt int64) *wire.MsgTx {
 func spendTx(op wire.OutPoint, amt int64) *wire.MsgTx {
 	tx := wire.NewMsgTx(2)
 	tx.AddTxIn(wire.NewTxIn(&op, nil, nil))
-	tx.AddTxOut(wire.NewTxOut(amt-1000, foreignPk))
+	out := amt - 1000
+	if out < 1 {
+		out = amt / 2 // small coins
+	}
+	tx.AddTxOut(wire.NewTxOut(out, foreignPk))
 	return tx
 }
 
@@ -234,6 +262,8 @@ func buildWorld(simID int, specs []CoinSpec) *world {
 	txsAt := map[int32][]*wire.MsgTx{}
 	var rolled, late []*wire.MsgTx
 	var spendsAtTip, lateSpends []*wire.MsgTx
+	earlySpends := map[int32][]*wire.MsgTx{} // unconfirmed spenders delivered BEFORE the block of that height
+	var spenderFirst [][2]*wire.MsgTx         // {spender, receipt}, both unconfirmed, delivered in this order
 	for i, sp := range specs {
 		addr, err := s.W.NewAddress(sp.Account, scopes[sp.Type])
 		if err != nil {
@@ -244,6 +274,9 @@ func buildWorld(simID int, specs []CoinSpec) *world {
 			ev.Fatal("script: %v", err)
 		}
 		cn := &coin{CoinSpec: sp, idx: i, amount: coinAmount(i), pkScript: pk, height: -1}
+		if sp.Small {
+			cn.amount = smallCoinAmount
+		}
 		var tx *wire.MsgTx
 		if sp.Status == stCoinbaseImmature || sp.Status == stCoinbaseMature {
 			tx = coinbaseTx(fmt.Sprintf("c06-cb-%d", i), pk, cn.amount)
@@ -258,6 +291,8 @@ func buildWorld(simID int, specs []CoinSpec) *world {
 			w.roles[tx.TxHash()] = fmt.Sprintf("receipt-coin%d", i)
 		case stRolledBack:
 			rolled = append(rolled, tx)
+			w.roles[tx.TxHash()] = fmt.Sprintf("receipt-coin%d", i)
+		case stSpenderFirstUnconf:
 			w.roles[tx.TxHash()] = fmt.Sprintf("receipt-coin%d", i)
 		case stConf1:
 			cn.height = T
@@ -280,14 +315,33 @@ func buildWorld(simID int, specs []CoinSpec) *world {
 			lateSpends = append(lateSpends, sp)
 			w.roles[sp.TxHash()] = fmt.Sprintf("spender-coin%d", i)
 			cn.spent = "spent-by-unconfirmed"
+		case stSpenderFirstUnconf:
+			// child seen before its (unconfirmed) parent
+			sp := spendTx(cn.op, cn.amount)
+			spenderFirst = append(spenderFirst, [2]*wire.MsgTx{sp, tx})
+			w.roles[sp.TxHash()] = fmt.Sprintf("spender-coin%d", i)
+			cn.spent = "spent-by-unconfirmed"
+		case stSpenderFirstConf:
+			// the unconfirmed child is recorded before the block that
+			// confirms its parent is delivered
+			sp := spendTx(cn.op, cn.amount)
+			earlySpends[cn.height] = append(earlySpends[cn.height], sp)
+			w.roles[sp.TxHash()] = fmt.Sprintf("spender-coin%d", i)
+			cn.spent = "spent-by-unconfirmed"
 		}
 		w.coins = append(w.coins, cn)
 		w.prev[cn.op] = cn
 	}
 	w.nbase = len(w.coins)
-	w.baseUnmined = len(late) + len(rolled) + len(lateSpends)
+	w.baseUnmined = len(late) + len(rolled) + len(lateSpends) + 2*len(spenderFirst)
+	for _, e := range earlySpends {
+		w.baseUnmined += len(e)
+	}
 	txsAt[T] = append(txsAt[T], spendsAtTip...)
 	for h := int32(1); h <= T; h++ {
+		for _, tx := range earlySpends[h] {
+			s.SeenUnconfirmed(tx)
+		}
 		b := c.NewBlock(c.Tip, "a", txsAt[h])
 		s.Connect(b, wsim.StyleFiltered)
 	}
@@ -301,6 +355,10 @@ func buildWorld(simID int, specs []CoinSpec) *world {
 	}
 	for _, tx := range lateSpends {
 		s.SeenUnconfirmed(tx)
+	}
+	for _, p := range spenderFirst {
+		s.SeenUnconfirmed(p[0])
+		s.SeenUnconfirmed(p[1])
 	}
 	for _, cn := range w.coins {
 		switch cn.Status {
@@ -378,7 +436,13 @@ func (w *world) snapshot() string {
 
 // undo removes the sends published since the base state (the way the wallet
 // itself removes a rejected transaction) and resets the harness' record.
-func (w *world) undo() {
+func (w *world) undo() { w.undoTainted(false) }
+
+// undoTainted is undo; tainted says that the oracle already reported a
+// finding about one of the published sends (e.g. a transaction spending an
+// output twice): the store may then be unable to take it back, and the harness
+// continues on a freshly built copy of the state instead of stopping.
+func (w *world) undoTainted(tainted bool) {
 	if len(w.published) == 0 {
 		return
 	}
@@ -396,6 +460,10 @@ func (w *world) undo() {
 		return nil
 	})
 	if err != nil {
+		if tainted {
+			w.rebuild()
+			return
+		}
 		ev.Fatal("undo: %v", err)
 	}
 	for _, tx := range w.published {
@@ -413,7 +481,7 @@ func (w *world) undo() {
 		}
 	}
 	if snap := w.snapshot(); snap != w.baseSnap {
-		if w.resynced {
+		if w.resynced || tainted {
 			// A resynchronisation may legitimately or (under a defect)
 			// wrongly have changed what the store holds; the harness
 			// does not judge that here, it continues on a fresh copy
